@@ -266,6 +266,16 @@ func pinBytes(kind string, der []byte) []byte {
 		s := sha512.Sum512(other)
 
 		return s[:]
+	case "n256":
+		s := sha256.Sum256(der) // near miss: last bit differs
+		s[31] ^= 0x01
+
+		return s[:]
+	case "n512":
+		s := sha512.Sum512(der) // near miss: first bit differs
+		s[0] ^= 0x80
+
+		return s[:]
 	case "w20":
 		s := sha256.Sum256(der) // a truncated matching digest
 
